@@ -21,3 +21,5 @@ C15 = {
     "ZkProofs.C15": ["Zk.C15_full_empties", "Zk.C15_optimal_empties", "Zk.C15_spec_characterisation", "Zk.C15_spec_sorted"],
     "ZkProofs.C06Pm": ["Zk.C15_pm_empties"],
 }
+C08["ZkProofs.C08Pm"] = ['Zk.C08_pm_batch_wrong_offset', 'Zk.C08_pm_batch_wrong_offset_leaves', 'Zk.C08_pm_batch_wrong_offset_root', 'Zk.C08_pm_remove_indices_collateral', 'Zk.C08_pm_remove_indices_collateral_leaves', 'Zk.C08_pm_remove_indices_collateral_empties', 'Zk.C08_pm_batch_panics', 'Zk.C08_pm_batch_refinement_fails', 'Zk.C08_pm_batch_refinement_fails_panic', 'Zk.C08_pm_history_statement_fails']
+C15["ZkProofs.C15Pm"] = ['Zk.C15_pm_reopen_loses_flags', 'Zk.C15_pm_reopen_keeps_leaves', 'Zk.C15_pm_reopen_statement_fails', 'Zk.C15_pm_no_reopen_agrees', 'Zk.C15_pm_reopen_not_rel']
